@@ -7,7 +7,8 @@ from harness.drivers import engine_cases_ctl as ecc
 ID = "C11"
 PROP_FILE = "Props/C11.v"
 THEOREMS = ["C11_suspension_reaches_wait", "C11_wait_blocks_until_release", "C11_release_then_post_rewind",
-            "C11_helper_plan_shape", "C11_start_suspender_stops_movers", "C11_caller_not_woken"]
+            "C11_helper_plan_shape", "C11_start_suspender_stops_movers", "C11_caller_not_woken",
+            "C11_hold_ok_all_runs", "C11_full_refuted"]
 impl_batch = cc.impl_batch
 COQ_IMPORTS = ec.COQ_IMPORTS + "\nFrom BV Require Import Proofs.RE_Hold."
 RULE = ec.RULE + ("; plus C11 extras: suspension at every `_run` step of plans with moved devices, bundles and waits, with/without "
